@@ -534,13 +534,13 @@ def gen_e2e(ctx: Ctx) -> List[dict]:
     cases: List[dict] = []
     # grammar: odd stream among siblings (each is run with and without the odd stream's frames)
     odd_kinds = H.ODD_KINDS + ["late_data", "late_data"]
-    for i in range(ctx.budget(30, 500)):
+    for i in range(ctx.budget(30, 250)):
         ok = odd_kinds[i % len(odd_kinds)]
         s = h2_session(rng, ok, i)
         cases.append({"family": "h2_odd_stream", "proto": "h2", "session": s, "seg": rng.choice(["one", "frames", "frames", "random", "bytewise"]),
                       "seed": rng.randrange(1 << 30)})
     # grammar: legal-but-rare and illegal frame sequences, then a probe request
-    for i in range(ctx.budget(2 * len(RARE), 800)):
+    for i in range(ctx.budget(2 * len(RARE), 400)):
         kind = RARE[i % len(RARE)]
         r = h2_rare(rng, kind)
         cases.append({"family": "h2_rare", "proto": "h2", "rare": r, "seg": rng.choice(["frames", "frames", "one", "random", "bytewise"]),
@@ -559,7 +559,7 @@ def gen_e2e(ctx: Ctx) -> List[dict]:
         cases.append({"family": "mutation", "proto": proto, "name": name, "how": how, "reads": [b2s(x) for x in cut(rng, mutated, rng.choice(["one", "random", "random", "bytewise"]))],
                       "scripts": scripts, "eof": rng.random() < 0.7})
     # random bytes
-    for i in range(ctx.budget(24, 500)):
+    for i in range(ctx.budget(24, 250)):
         n = rng.choice([1, 3, 9, 24, 60, 300, 5000, 20000])
         blob = bytes(rng.randrange(256) for _ in range(n))
         proto = rng.choice(["h1", "h2"])
@@ -812,6 +812,12 @@ def _steps_py(steps: List[dict]) -> List[dict]:
 
 
 def check_direct(ctx: Ctx, cases: List[dict]) -> None:
+    # in batches, so that tap logs of thousands of sessions are not held at once
+    for k in range(0, len(cases), 500):
+        _check_direct(ctx, cases[k:k + 500])
+
+
+def _check_direct(ctx: Ctx, cases: List[dict]) -> None:
     runs = []
     reqs = []
     for case in cases:
